@@ -707,13 +707,9 @@ Proof.
     eapply SInv_trans; eauto. eapply IH; eauto. apply S1.
 Qed.
 
-Lemma hlog_send_all l : forall prev o d, send_all prev l = (o, d) -> hlog o = [].
+Lemma hlog_send_all l : hlog (send_all l) = [].
 Proof.
-  induction l as [|[[[a hd] k] p] r IH]; simpl; intros prev o d.
-  - intros [= <- <-]. auto.
-  - destruct (if header_ok hd then _ else _) as [[[hd' k'] p']|]; [|intros [= <- <-]; auto].
-    destruct (sock_refuses a); [intros [= <- <-]; auto|].
-    destruct (send_all _ r) as [o' d'] eqn:S. intros [= <- <-]. simpl. eapply IH; eauto.
+  induction l as [|[[[a hd] k] p] r IH]; simpl; auto. destruct (_ && _); simpl; auto.
 Qed.
 
 Lemma shutdown_list_inv h e ids : forall s s' o phi,
@@ -776,49 +772,50 @@ Qed.
 
 Lemma srv_shutdown_inv h e s s' o phi :
   srv_shutdown h e s = (s', o) -> Inv s phi ->
-  Inv s' (adv phi (hlog o)) /\ s_conns s' = [] /\ s_active s' = false.
+  Inv s' (adv phi (hlog o)) /\ s_conns s' = [] /\ s_active s' = false /\ s_dead s' = s_dead s.
 Proof.
   unfold srv_shutdown. destruct (shutdown_list _ _ _ _) as [s1 o1] eqn:L.
   destruct (call_handler h e s1 HShutdown) as [s2 o2] eqn:C. intros [= <- <-] I.
-  pose proof (shutdown_list_inv _ _ _ _ _ _ _ L I) as (I1 & _).
+  pose proof (shutdown_list_inv _ _ _ _ _ _ _ L I) as (I1 & _ & Dd1).
   pose proof (shutdown_list_clears _ _ _ _ _ _ _ L I) as Cl.
   apply call_handler_spec in C. destruct C as [F2 L2].
   assert (E1 : s_conns s1 = []).
   { destruct (s_conns s1) as [|x r] eqn:E; auto. exfalso.
     destruct (Cl (cl_id x)) as [A B]; [simpl; auto | contradiction]. }
-  split; [|split; simpl; auto].
+  split; [|split; [|split]; simpl; auto].
   - assert (X : Inv' (shape (s_temp s2)) (shape (s_conns s2)) (s_next_id s2) (adv (adv phi (hlog o1)) (hlog o2))).
     { rewrite L2. destruct F2 as (T2 & C2 & N2 & _). rewrite T2, C2, N2. apply Inv'_quiet; auto. }
     unfold Inv; simpl. eapply Inv'_ext; [|exact X]. intros c. rewrite hlog_app, adv_app. auto.
   - destruct F2 as (_ & C2 & _). rewrite E1 in C2. destruct (s_conns s2); [auto|discriminate].
+  - destruct F2 as (_ & _ & _ & _ & _ & _ & D2). congruence.
 Qed.
 
 Lemma srv_sx_inv h e s i s' o phi :
   srv_sx h e s i = (s', o) -> Inv s phi ->
-  Inv s' (adv phi (hlog o)) /\ (s_active s' = false -> s_dead s' = false -> s_conns s' = [] \/ s_active s = false).
+  Inv s' (adv phi (hlog o)) /\ (s_active s' = false -> s_dead s' = false -> s_conns s' = [] \/ s_active s = false) /\
+  s_dead s' = s_dead s.
 Proof.
   unfold srv_sx.
   destruct (sweep_list _ s _) as [[s3 o3] p3] eqn:S3.
   destruct (sweep_list _ s3 _) as [[s4 o4] p4] eqn:S4.
-  destruct (send_all None (p3 ++ p4)) as [o5 dead] eqn:S5. intros H I.
+  set (o5 := send_all (p3 ++ p4)). intros H I.
   assert (I3 : SInv s s3 o3 phi).
   { eapply sweep_list_inv; [|exact S3|exact I]. intros ? ? ? ? ? ? H0 H1; cbv beta in H0; eapply sweep_conn_inv; eauto. }
   assert (I4 : SInv s3 s4 o4 (adv phi (hlog o3))).
   { eapply sweep_list_inv; [|exact S4|apply I3]. intros ? ? ? ? ? ? H0 H1; cbv beta in H0; eapply sweep_temp_inv; eauto. }
   pose proof (SInv_trans _ _ _ _ _ _ I3 I4) as (I5 & A5 & D5).
-  apply hlog_send_all in S5.
+  assert (S5 : hlog o5 = []) by apply hlog_send_all.
   assert (I6 : Inv s4 (adv phi (hlog (o3 ++ o4 ++ o5)))).
   { eapply Inv'_ext; [|exact I5]. intros c. rewrite !hlog_app, S5, app_nil_r. rewrite <- hlog_app. auto. }
-  destruct dead.
-  - injection H as <- <-. split; [exact I6|]. simpl. discriminate.
-  - destruct (i_stop i).
-    + destruct (srv_shutdown h e s4) as [s6 o6] eqn:X. injection H as <- <-.
-      destruct (srv_shutdown_inv _ _ _ _ _ _ X I6) as (I7 & C7 & A7). split.
-      * eapply Inv'_ext; [|exact I7]. intros c.
-        replace (o3 ++ o4 ++ o5 ++ o6) with ((o3 ++ o4 ++ o5) ++ o6) by (rewrite <- !app_assoc; auto).
-        rewrite (hlog_app (o3 ++ o4 ++ o5) o6), adv_app. auto.
-      * auto.
-    + injection H as <- <-. split; [exact I6|]. intros A _. right. congruence.
+  destruct (i_stop i).
+  - destruct (srv_shutdown h e s4) as [s6 o6] eqn:X. injection H as <- <-.
+    destruct (srv_shutdown_inv _ _ _ _ _ _ X I6) as (I7 & C7 & A7 & D7). split; [|split].
+    + eapply Inv'_ext; [|exact I7]. intros c.
+      replace (o3 ++ o4 ++ o5 ++ o6) with ((o3 ++ o4 ++ o5) ++ o6) by (rewrite <- !app_assoc; auto).
+      rewrite (hlog_app (o3 ++ o4 ++ o5) o6), adv_app. auto.
+    + auto.
+    + congruence.
+  - injection H as <- <-. split; [exact I6|split]. { intros A _. right. congruence. } auto.
 Qed.
 
 Lemma srv_step_inv h e s i s' o phi :
@@ -832,7 +829,7 @@ Proof.
     destruct (s_dead s2) eqn:D2.
     + injection H as <- <-. split; [exact I2|]. congruence.
     + destruct (srv_sx h e s2 i) as [s6 o6] eqn:SX. injection H as <- <-.
-      destruct (srv_sx_inv _ _ _ _ _ _ _ SX I2) as [I6 C6]. split.
+      destruct (srv_sx_inv _ _ _ _ _ _ _ SX I2) as (I6 & C6 & _). split.
       * eapply Inv'_ext; [|exact I6]. intros c. rewrite hlog_app, adv_app. auto.
       * intros A D. destruct (C6 A D) as [X|X]; auto. right. congruence.
 Qed.
